@@ -58,6 +58,8 @@ type Scenario struct {
 	NeedConv bool              // pass the converter instance to the interpreter
 	Files    map[string]string // extra files of the scratch module (other packages)
 	Imports  []string          // extra package keys imported by conv.go
+	// SeparateOutputOnly: the builder's verdict depends on the generated code living outside package conv
+	SeparateOutputOnly bool
 }
 
 func (sc *Scenario) ifaceSource() string {
@@ -456,4 +458,88 @@ func stripPackageClause(src string) string {
 		keep = append(keep, l)
 	}
 	return strings.Join(keep, "\n")
+}
+
+// ---- output formats: the same scenario as output:format function and as a goverter:variables block ----
+
+// reformat returns a copy of sc in the given output format ("function" | "variables"), or nil when the scenario cannot
+// be expressed in it (raw sources, converter-typed custom function parameters, command-line settings, own expressions).
+// Method names get the scenario id as suffix because functions and variables are package-level names.
+func reformat(sc *Scenario, format string) *Scenario {
+	if sc.Variables || sc.RawSource != "" || sc.NeedConv || len(sc.Global) > 0 || sc.FnExprOverride != "" || sc.AssertOverride != "" || sc.Conv == nil {
+		return nil
+	}
+	for _, c := range sc.Conv.Extends {
+		if c.Conv {
+			return nil
+		}
+	}
+	// scenarios that mention their own converter interface (converter-typed parameters) only exist in struct format
+	if strings.Contains(sc.FuncsSrc, sc.ID) {
+		return nil
+	}
+	for _, m := range sc.Methods {
+		if strings.Contains(m.Params, sc.ID) || strings.Contains(m.Result, sc.ID) {
+			return nil
+		}
+	}
+	if format == "variables" && sc.SeparateOutputOnly {
+		return nil
+	}
+	n := *sc
+	n.Desc = map[string]any{}
+	for k, v := range sc.Desc {
+		n.Desc[k] = v
+	}
+	n.Desc["class"] = fmt.Sprintf("%v format=%s", sc.Desc["class"], format)
+	n.Desc["format"] = format
+	conv := *sc.Conv
+	conv.Methods = nil
+	n.Conv = &conv
+	n.Methods = nil
+	newID := sc.ID + map[string]string{"function": "F", "variables": "V"}[format]
+	ren := func(name string) string { return name + "X" + newID } // carries the case id for compile-error attribution
+	byOld := map[*model.Method]*model.Method{}
+	for _, m := range sc.Conv.Methods {
+		mm := *m
+		mm.Name = ren(m.Name)
+		byOld[m] = &mm
+		conv.Methods = append(conv.Methods, &mm)
+	}
+	for _, m := range sc.Methods {
+		sm := *m
+		sm.Name = ren(m.Name)
+		if nm, ok := byOld[m.M]; ok {
+			sm.M = nm
+		} else if m.M != nil {
+			mm := *m.M
+			mm.Name = sm.Name
+			sm.M = &mm
+		}
+		n.Methods = append(n.Methods, &sm)
+	}
+	n.Test = ren(sc.Test)
+	n.ConvLines = append([]string{}, sc.ConvLines...)
+	switch format {
+	case "function":
+		n.ID = sc.ID + "F"
+		n.ConvLines = append([]string{"output:format function"}, n.ConvLines...) // must precede extend lines
+		n.FnExprOverride = "generated." + n.Test
+		n.AssertOverride = "var _ = generated." + n.Test
+	case "variables":
+		n.ID = sc.ID + "V"
+		n.Variables = true
+		conv.OutPkg = "conv"
+	}
+	return &n
+}
+
+func reformatAll(scs []*Scenario, format string) []*Scenario {
+	var out []*Scenario
+	for _, sc := range scs {
+		if r := reformat(sc, format); r != nil {
+			out = append(out, r)
+		}
+	}
+	return out
 }
